@@ -176,3 +176,13 @@ pub proof fn lemma_fixpoint_every_frame(s: SATSolver, k: int)
 {
     lemma_fixpoint(s.up, s.frame(k));
 }
+/// COROLLARY (what the top-down compiler relies on at its leaves, assumed there as part of A-sat): at a fixpoint, a model that
+/// assigns every variable occurring in the formula makes every clause true
+pub proof fn lemma_total_model_satisfies(cs: Seq<Vec<Literal>>, m: PartialModel)
+    requires at_fixpoint(cs, m), forall|i: int, j: int| 0 <= i < cs.len() && 0 <= j < cs[i]@.len() ==> m.val((#[trigger] cs[i]@[j]).lbl) is Some,
+    ensures cnf_true_p(cs, m),
+{
+    assert forall|i: int| 0 <= i < cs.len() implies clause_true_p((#[trigger] cs[i])@, m) by {
+        assert(not_stuck(cs[i]@, m));
+    }
+}
